@@ -24,7 +24,13 @@ def _maxn(a, i): return i if a is None or i > a else a
 def _app(a, i):
     a.append(i)
     return a
-def _lsum(l): return sum(l) * 10 + len(l)
+def _lsum(l):
+    """order-sensitive linear digest of a list of ints: as a linear form in the
+    items it is injective, so equality for all values means the same sequence"""
+    h = len(l)
+    for x in l:
+        h = h * 3 + x
+    return h
 def _psum(p): return p[0] + p[1]
 def _none0(i): return 0 if i is None else i
 def _fixt(i):
